@@ -1125,6 +1125,16 @@ func (env *Env) evalCall(e *E) SV {
 			// number of separators bytes.Split finds in its argument (A-SPLIT)
 			a := env.term(env.eval(args[0]))
 			return SV{V: Scalar{App(SBV(64), "sep_count", a)}, T: types.Typ[types.Int]}
+		case "connClosed":
+			// ghost: Close has been called on the net.Conn held by the interface value
+			c := env.term(env.eval(args[0]))
+			arr := env.heap("|Conn:closed|", SArray(SRef, SBool))
+			return SV{V: Scalar{Select(arr, IRef(c))}, T: boolT}
+		case "waited":
+			// ghost: errgroup.Group.Wait has been called on the group
+			gr := env.term(env.eval(args[0]))
+			arr := env.heap("|Group:waited|", SArray(SRef, SBool))
+			return SV{V: Scalar{Select(arr, gr)}, T: boolT}
 		case "bound":
 			// bound(x): the path has reached the call site at which the site-level let x is bound
 			if len(args) != 1 || args[0].Op != "id" {
